@@ -33,3 +33,7 @@ Definition nm_check (g : float -> float) (g0 g1 : float) (n : nat) (lo hi tol : 
   : bool * bool * spec_float * nat * nat :=
   let '(x, tr) := nm_float g g0 g1 n lo hi tol in
   (fbits_eq x rx, flist_eqb tr rtrace, Prim2SF x, length tr, first_diff tr rtrace 0).
+
+(* for a run on which the implementation PANICKED: the model must say the run is not defined (a NaN cost reached the solver) *)
+Definition nm_check_panic (g : float -> float) (g0 g1 : float) (n : nat) (lo hi tol : float) : bool :=
+  negb (nm_defined g g0 g1 n lo hi tol).
